@@ -82,9 +82,16 @@ pub fn run(tier: Tier) -> Report {
             cases.push((w, h, q, 0));
         }
     }
+    cases.push((2049, 17, 5, 1));
+    cases.push((17, 2049, 5, 2));
+    // more than 2^24 samples (sizes whose product is not representable in single precision)
+    cases.push((4097, 4101, 3, 0));
     if tier.thorough() {
         cases.push((352, 288, 9, 1));
         cases.push((1000, 3, 4, 0));
+        cases.push((6001, 6002, 7, 0));
+        cases.push((65535, 33, 2, 0));
+        cases.push((33, 65535, 2, 0));
     }
     cases.par_iter().for_each(|&(w, h, q, kind)| {
         let version = ((w + h) % 2) as u8;
